@@ -12,7 +12,7 @@ import (
 	"verif/checks/c07/guard"
 )
 
-const rule = "cron: Parser.Parse under five option sets on EVERY sequence of <= k tokens from the token alphabet, joined by one space and joined by nothing (k = 4 quick, 5 thorough), each call under recover() in a worker subprocess with an in-flight marker; Schedule.Next at three fixed instants on every distinct schedule produced by sequences of <= k-1 tokens. non-trivial = the spec was accepted (a schedule was returned) or a Next call was made."
+const rule = "cron: Parser.Parse under five option sets on EVERY sequence of <= k tokens from the token alphabet, joined by one space and joined by nothing (k = 4 quick, 5 thorough), each call under recover() in a worker subprocess with an in-flight marker; Schedule.Next at three fixed instants on every distinct schedule produced by sequences of <= k-1 tokens. non-trivial = the spec was accepted (a schedule was returned) or a Next call was made. cron-missing-day: every zone of the system tzdata with an offset jump of >= 23 h (a skipped or repeated local day; found by scanning, Pacific/Apia and Pacific/Kwajalein always included) x day-of-month-, day-of-week- and both-restricted specs x hours 0/12/23 x TZ= / CRON_TZ= / zone-carried-by-the-start-instant; Next from every day 40 days before to 2 days after the jump and every hour within 30 h of it; a Next that does not return is caught by the hang guard (non-trivial = a non-zero time came back)."
 
 // tokens is the alphabet (numbers at and beyond the range edges, operators,
 // names, time-zone prefixes, descriptors, durations, empty, huge, unicode).
@@ -161,7 +161,7 @@ func areas(thorough bool) []*guard.Area {
 			}
 		}
 	}
-	return []*guard.Area{{
+	return []*guard.Area{missingDayArea(thorough), {
 		Name:   "cron",
 		Chunks: len(chunks),
 		Run:    run,
